@@ -4,7 +4,7 @@ from engine.driver import poly as P
 from engine.driver.core import Ob, eq, eqs
 from engine.driver.encode import Constraint
 from spec import catalogue as cat
-from spec.treeutil import cleared, is_coord, subst_affine, tier_caps, cap_sets
+from spec.treeutil import cleared, is_coord, subst_affine, tier_caps, cap_sets, pick_twin
 
 ID = "C10"
 HARNESS = "C10_prescribed.cpp"
@@ -134,17 +134,12 @@ def obligations(enc, inst, tr):
     def named(name, pairs, first=None):
         if first is not None:       # twin taken from this pair (one whose sides are not identically zero)
             pairs = [pairs[first]] + pairs[:first] + pairs[first + 1:]
-        # twin (must be refutable): first pair with a non-zero right-hand side and a non-constant side -> lhs = 2 rhs;
-        # else a pair with non-constant lhs -> lhs = 1; else none (all-constant obligations are decided by evaluation)
-        tw = None
-        for l, r in pairs:
-            if r and not (P.is_const(l) and P.is_const(r)):
-                tw = [Constraint(1, P.sub(l, P.scale(r, 2)), name + " [twin: lhs = 2 rhs]")]
-                break
+        # twin (must be refutable); none for all-constant obligations (those are decided by evaluation)
+        tw = pick_twin(enc, name, pairs)        # lhs = 2 rhs on a pair whose rhs is numerically non-zero at the seed
         if tw is None:
-            for l, r in pairs:
-                if not P.is_const(l):
-                    tw = [Constraint(1, P.sub(l, one), name + " [twin: lhs = 1]")]
+            for l, r in pairs:                   # else: a non-constant lhs that is non-zero at the seed is claimed to be 0
+                if not P.is_const(l) and abs(R.evalf(l, enc.vals)) > 1e-6:
+                    tw = [Constraint(1, l, name + " [twin: lhs = 0]")]
                     break
         ob = cleared(enc, name, pairs, twin=tw or [])
         if not tw:
